@@ -6,7 +6,7 @@
 From Verif Require Import Common.Base C20.Model C20.Proofs1 C20.Proofs2 C20.Proofs3 C20.Proofs4.
 (* obligations tying the model's State codes / names / GetState / method set to the translated Go source *)
 From Verif Require C20.Tie.
-From Verif Require Import C20.ObsCheck C20.ObsSound C20.Repaired.
+From Verif Require Import C20.ObsCheck C20.ObsSound C20.Harness C20.ObsLink.
 
 (* ---- Starting -> Running -> Closing -> Closed --------------------------------------------------- *)
 (* The sequence of setCollectorState values is a word of the automaton [pdelta]:
@@ -78,41 +78,36 @@ Theorem stop_request_is_sticky : forall o ls s,
   (st_ctx_done s = true -> st_ctx_done (fst (run o s ls)) = true).
 Proof. exact sticky_l. Qed.
 
-(* shutdown() is one section: if the service shutdown is not blocked, Run sets Closed and returns. *)
+(* shutdown() is one section and always completes: Run sets Closed and returns (the service shutdown
+   cannot be blocked: shutdownService keeps receiving from asyncErrorChannel meanwhile). *)
 Theorem shutdown_section_completes : forall o s bg b,
-  st_pc s = PFinal bg -> svc_blocked (live_gen s) s = false ->
-  st_pc (fst (step o s (LRun b))) = PDone DStopped /\
+  st_pc s = PFinal bg ->
+  st_pc (fst (step o s (LRun b))) = PDone DStopped /\ st_phase (fst (step o s (LRun b))) = Closed /\
   exists pre r, snd (step o s (LRun b)) = pre ++ [ASetState Closed; AReturn r].
 Proof. exact final_step_l. Qed.
 
-(* PARTIAL: when no component reports StatusFatalError in the history, the service shutdown is
-   never blocked and Run is never stuck — together with the four theorems above: a run that
-   reached Running and takes a stop event ends in Closed, everything shut down exactly once. *)
-Theorem ends_closed_partial : forall o ls,
-  no_fatal ls ->
-  let s := fst (run o init ls) in
-  st_pc s <> PStuck /\ (forall g, svc_blocked g s = false).
+(* FULL (was _partial/_refuted before commit 98f2ce3d0, finding C20-FATAL-DEADLOCK): for EVERY history
+   Run is never blocked, the retirement of the old service in a reload always completes, and —
+   with stop_branch_enters_shutdown, stop_request_is_sticky, shutdown_section_completes and
+   stopped_run_is_closed — a run that reached Running and takes a stop event ends in Closed with
+   everything shut down exactly once and Run returned. *)
+Theorem ends_closed : forall o,
+  (forall ls, st_pc (fst (run o init ls)) <> PStuck) /\
+  (forall s b, st_pc s = PReload ->
+     st_pc (fst (step o s (LRun b))) = PSetup false \/ st_pc (fst (step o s (LRun b))) = PDone DRetireFail) /\
+  (forall s bg b, st_pc s = PFinal bg ->
+     st_pc (fst (step o s (LRun b))) = PDone DStopped /\ st_phase (fst (step o s (LRun b))) = Closed).
 Proof.
-  exact (fun o ls NF =>
-    conj (proj2 (no_fatal_never_stuck_l o ls NF))
-         (fun g => all_plain_not_blocked g _ (proj1 (no_fatal_never_stuck_l o ls NF)))).
+  exact (fun o => conj (fun ls => never_stuck_l o ls init ltac:(discriminate))
+                 (conj (reload_step_l o) (fun s bg b E => conj (proj1 (final_step_l o s bg b E)) (proj1 (proj2 (final_step_l o s bg b E)))))).
 Qed.
 
-(* REFUTED in full: a component's fatal status is sent on the unbuffered asyncErrorChannel from
-   inside the status reporter's critical section; a second such report (or one arriving while Run
-   is already reloading / shutting down) holds the reporter's mutex for ever, service.Shutdown
-   blocks on it: the run reached Running, took the asynchronous error, and then stays in Closing
-   for ever — never Closed, Run never returns.  (Finding C20-FATAL-DEADLOCK.) *)
-Theorem ends_closed_refuted :
-  exists o ls,
-    let s := fst (run o init ls) in let log := snd (run o init ls) in
-    In (ASetState Running) log /\
-    (exists l1 l2, ls = l1 ++ LRun BrAsync :: l2 /\
-                   st_pc (fst (run o init l1)) = PSelect /\ stop_branch (fst (run o init l1)) BrAsync = true) /\
-    st_phase s = Closing /\ count is_return log = 0 /\
-    (forall b, enabled s (LRun b) = false) /\
-    forall ls', st_pc (fst (run o s ls')) = PStuck /\ count is_return (snd (run o s ls')) = 0.
-Proof. exact ends_closed_refuted_l. Qed.
+(* regression: the history that deadlocked the old code (Old.v, ex_deadlock_old) now ends Closed *)
+Theorem deadlock_history_now_closes :
+  let r := run refute_oracle init refute_history in
+  st_pc (fst r) = PDone DStopped /\ st_phase (fst r) = Closed /\ st_async (fst r) = [] /\
+  last_opt (snd r) = Some (AReturn RNil).
+Proof. exact deadlock_history_now_closes_l. Qed.
 
 (* ---- bring-up failure ---------------------------------------------------------------------------------- *)
 (* However Run ended (initial or reloaded configuration not brought up, retiring service failing
@@ -126,10 +121,11 @@ Theorem bringup_failure_cleans_up : forall o ls s log k,
   (k <> DStopped -> count is_prov_shut log = 0 /\ st_phase s <> Running).
 Proof. exact finished_run_l. Qed.
 
-(* ... and the section that ends the run with a failure returns an error. *)
+(* ... and the section that ends the run with a failure returns an error (fail_result: one of the
+   bring-up / retire error classes, hence not nil and not a stop result). *)
 Theorem failure_returns_error : forall o s b k,
   (forall k0, st_pc s <> PDone k0) -> st_pc (fst (step o s (LRun b))) = PDone k -> k <> DStopped ->
-  exists pre e, snd (step o s (LRun b)) = pre ++ [AReturn e] /\ e <> RNil.
+  exists pre e, snd (step o s (LRun b)) = pre ++ [AReturn e] /\ fail_result e = true.
 Proof. exact failure_returns_error_l. Qed.
 
 (* Observation (not required by the property as worded): a run ended by a failed reload is left
@@ -178,8 +174,10 @@ Proof. exact recover_exercised_l. Qed.
    either leaves the queue alone, appends to it, or — only Run, in the select, taking that branch —
    removes the HEAD and acts on it (watch error / async error: shutdown(); change: reload).  So a
    watch error sent right behind a pending change is still there when the reload is over.  The one
-   exception is the third case: shutdown() closes the watcher channel, which kills the blocked
-   senders (see orderly_shutdown_refuted). *)
+   exceptions are the third cases: shutdown() releases the provider goroutines still blocked behind the
+   buffered notification (nobody is going to re-fetch), and while Run shuts a service down (reload
+   retirement, shutdown(), clean-up after a failed Start) it receives and discards whatever is sent
+   on asyncErrorChannel — the service those errors belong to is going away. *)
 Theorem pending_notifications_never_dropped : forall o s l,
   let s' := fst (step o s l) in
   ((exists x, st_watch s' = st_watch s ++ x) \/
@@ -187,7 +185,9 @@ Theorem pending_notifications_never_dropped : forall o s l,
     exists e, st_watch s = e :: st_watch s' /\ st_pc s' = (if e then PFinal false else PReload)) \/
    (exists b bg, l = LRun b /\ st_pc s = PFinal bg /\ st_watch s' = firstn 1 (st_watch s))) /\
   ((exists x, st_async s' = st_async s ++ x) \/
-   (l = LRun BrAsync /\ st_pc s = PSelect /\ exists e, st_async s = e :: st_async s' /\ st_pc s' = PFinal false)).
+   (l = LRun BrAsync /\ st_pc s = PSelect /\ exists e, st_async s = e :: st_async s' /\ st_pc s' = PFinal false) \/
+   (exists b, l = LRun b /\ st_async s' = [] /\
+      (st_pc s = PReload \/ (exists bg, st_pc s = PFinal bg) \/ (exists i k, st_pc s = PSetup i /\ st_pc s' = PDone k)))).
 Proof. exact (fun o s l => conj (watch_fifo_l o s l) (async_fifo_l o s l)). Qed.
 
 (* ---- every registered provider, exactly once --------------------------------------------------------- *)
@@ -205,29 +205,19 @@ Theorem each_provider_shut_down_exactly_once : forall t o ls,
      forall p, pcount (is_pshut p) (expand t log) = 0).
 Proof. exact each_provider_once_l. Qed.
 
-(* ---- close(mr.watcher) under a blocked provider goroutine ---------------------------------------------- *)
-(* PARTIAL: in a history in which at most one watcher notification is pending at any time, no
-   provider goroutine panics. *)
-Theorem orderly_shutdown_partial : forall o ls s,
-  (forall l1 l2, ls = l1 ++ l2 -> length (st_watch (fst (run o s l1))) <= 1) ->
-  count is_sender_panic (snd (run o s ls)) = 0.
-Proof. exact (fun o ls s => no_sender_panic_l o ls s). Qed.
+(* ---- orderly shutdown: no provider goroutine is killed --------------------------------------------------- *)
+(* FULL (was _partial/_refuted before commit bc929f066, finding C20-WATCH-SEND-ON-CLOSED): in EVERY
+   history no provider goroutine panics — the watcher channel is closed only after the senders
+   blocked in onChange have been released. *)
+Theorem orderly_shutdown : forall o ls s, count is_sender_panic (snd (run o s ls)) = 0.
+Proof. exact no_sender_panic_l. Qed.
 
-(* exactly which section produces how many panics *)
-Theorem sender_panics_per_step : forall o s l,
-  count is_sender_panic (snd (step o s l)) =
-  match l, st_pc s with LRun _, PFinal _ => pred (length (st_watch s)) | _, _ => 0 end.
-Proof. exact step_panics. Qed.
-
-(* REFUTED in general (finding C20-WATCH-SEND-ON-CLOSED): Resolver.Shutdown closes the watcher channel
-   while a provider goroutine is still blocked in onChange behind a pending notification; that
-   goroutine panics with "send on closed channel".  The run itself reaches Closed and returns — the
-   process dies in the provider's goroutine. *)
-Theorem orderly_shutdown_refuted :
-  exists o ls, let s := fst (run o init ls) in let log := snd (run o init ls) in
-    In (ASetState Running) log /\ st_pc s = PDone DStopped /\ st_phase s = Closed /\
-    count is_sender_panic log = 1.
-Proof. exact orderly_shutdown_refuted_l. Qed.
+(* regression: the history on which the old code panicked (Old.v, ex_panic_old) is now orderly *)
+Theorem panic_history_now_orderly :
+  let r := run refute_oracle init panic_history in
+  st_pc (fst r) = PDone DStopped /\ st_phase (fst r) = Closed /\ count is_sender_panic (snd r) = 0 /\
+  st_watch (fst r) = [false].
+Proof. exact panic_history_now_orderly_l. Qed.
 
 (* ---- liveness, as far as a model of finite runs can say it ------------------------------------------------ *)
 (* RANKING FUNCTION.  Every enabled section of Run strictly decreases Model.mu (4 x number of queued
@@ -244,17 +234,17 @@ Proof. exact env_step_raises_by_4. Qed.
 
 (* ... and with a sticky stop request pending (shutdown channel closed or context cancelled) any
    sequence of enabled sections has at most mu s members, and when none is enabled any more Run has
-   returned (or is deadlocked: ends_closed_refuted) — it cannot come to rest in the select.  Hence
+   returned — it cannot come to rest in the select.  Hence
    the only way a pending stop request is never honoured is an infinite stream of reload requests
    each of which the select prefers to it; a weakly fair select (Go's is uniformly random) excludes
    that, but infinite runs and fairness are outside this finite-run model (NOTES.md). *)
 Theorem stop_request_ends_run : forall o s bs,
+  st_pc s <> PStuck ->
   st_chan_closed s = true \/ st_ctx_done s = true ->
   run_enabled o s bs = true ->
   let s' := fst (run o s (map LRun bs)) in
-  length bs <= mu s /\
-  ((forall b, enabled s' (LRun b) = false) -> (exists k, st_pc s' = PDone k) \/ st_pc s' = PStuck).
-Proof. exact stop_pending_ends_run_l. Qed.
+  length bs <= mu s /\ ((forall b, enabled s' (LRun b) = false) -> exists k, st_pc s' = PDone k).
+Proof. exact stop_pending_returns_l. Qed.
 
 (* ---- the decidable checker run over every OBSERVED history -------------------------------------------- *)
 (* ObsCheck.obs_verdict (evaluated by the check driver on the event log of every recorded case,
@@ -293,37 +283,18 @@ Proof. exact initial_failure_closed_l. Qed.
    retiring service failed to shut down returned exactly one value, and that value is an error. *)
 Theorem failed_run_returns_the_error : forall o ls k,
   st_pc (fst (run o init ls)) = PDone k -> k <> DStopped ->
-  exists l1 e l2, snd (run o init ls) = l1 ++ AReturn e :: l2 /\ e <> RNil /\ count is_return (l1 ++ l2) = 0.
+  exists l1 e l2, snd (run o init ls) = l1 ++ AReturn e :: l2 /\ fail_result e = true /\ count is_return (l1 ++ l2) = 0.
 Proof. exact failed_run_returns_error_l. Qed.
 
-(* ---- the two proposed repairs (work/C20/fix/*.diff), pre-verified on copies of the model ----------------- *)
-(* C20-FATAL-DEADLOCK repaired (the collector keeps receiving from asyncErrorChannel while it shuts a
-   service down): the statement refuted by ends_closed_refuted holds for EVERY history — Run is never
-   blocked, the retirement of a reload always completes, shutdown() always reaches Closed and
-   returns — and the refutation witness itself ends Closed with a nil result. *)
-Theorem ends_closed_repaired : forall o,
-  (forall ls s, st_pc s <> PStuck -> st_pc (fst (run_repaired o s ls)) <> PStuck) /\
-  (forall s b, st_pc s = PReload ->
-     st_pc (fst (step_repaired o s (LRun b))) = PSetup false \/ st_pc (fst (step_repaired o s (LRun b))) = PDone DRetireFail) /\
-  (forall s bg b, st_pc s = PFinal bg ->
-     st_pc (fst (step_repaired o s (LRun b))) = PDone DStopped /\ st_phase (fst (step_repaired o s (LRun b))) = Closed /\
-     exists pre r, snd (step_repaired o s (LRun b)) = pre ++ [ASetState Closed; AReturn r]) /\
-  (let r := run_repaired refute_oracle init refute_history in
-   st_pc (fst r) = PDone DStopped /\ st_phase (fst r) = Closed /\ last_opt (snd r) = Some (AReturn RNil)).
-Proof.
-  exact (fun o => conj (never_stuck_repaired o) (conj (reload_step_repaired o) (conj (final_step_repaired o) refutation_witness_repaired))).
-Qed.
-
-(* C20-WATCH-SEND-ON-CLOSED repaired (Resolver.Shutdown releases the blocked senders before it closes
-   the watcher channel): the collector goes through exactly the same states, the log is the faithful
-   one without the panics, and no provider goroutine panics in ANY history. *)
-Theorem orderly_shutdown_repaired : forall o ls s,
-  fst (run_watchfix o s ls) = fst (run o s ls) /\
-  snd (run_watchfix o s ls) = filter not_panic (snd (run o s ls)) /\
-  count is_sender_panic (snd (run_watchfix o s ls)) = 0.
-Proof.
-  exact (fun o ls s => conj (proj1 (run_watchfix_spec o ls s)) (conj (proj2 (run_watchfix_spec o ls s)) (no_panic_watchfix o ls s))).
-Qed.
+(* THE LINK back to the model: observe the MODEL's own run the way the harness observes the
+   implementation (Harness.wire_log over any resolver topology, ret_of, the panic count in the
+   result code) — the checker passes, for every oracle, topology and history.  So the checker never
+   demands more than the model delivers (no false alarm on a run that agrees with the model), and a
+   non-zero verdict on an observed history is a disagreement with a THEOREM, not with a heuristic. *)
+Theorem model_passes_clause_checker : forall t o ls,
+  let acts := snd (run o init ls) in
+  obs_verdict (1 + n_aux t) (wire_log t Starting acts) (ret_of acts + 100 * count is_sender_panic acts) = 0.
+Proof. exact model_passes_clause_checker_l. Qed.
 
 Print Assumptions phase_order.
 Print Assumptions phase_order_in_words.
@@ -335,8 +306,6 @@ Print Assumptions stopped_run_is_closed.
 Print Assumptions stop_branch_enters_shutdown.
 Print Assumptions stop_request_is_sticky.
 Print Assumptions shutdown_section_completes.
-Print Assumptions ends_closed_partial.
-Print Assumptions ends_closed_refuted.
 Print Assumptions bringup_failure_cleans_up.
 Print Assumptions failure_returns_error.
 Print Assumptions reload_failure_not_closed.
@@ -344,9 +313,6 @@ Print Assumptions shutdown_idempotent_safe.
 Print Assumptions recover_guard_is_exercised.
 Print Assumptions pending_notifications_never_dropped.
 Print Assumptions each_provider_shut_down_exactly_once.
-Print Assumptions orderly_shutdown_partial.
-Print Assumptions sender_panics_per_step.
-Print Assumptions orderly_shutdown_refuted.
 Print Assumptions run_section_decreases_measure.
 Print Assumptions external_label_raises_measure_by_4.
 Print Assumptions stop_request_ends_run.
@@ -358,5 +324,8 @@ Print Assumptions observed_clause_checker_is_sound.
 Print Assumptions no_bringup_after_failed_shutdown.
 Print Assumptions failed_run_returns_the_error.
 Print Assumptions initial_failure_ends_closed.
-Print Assumptions ends_closed_repaired.
-Print Assumptions orderly_shutdown_repaired.
+Print Assumptions ends_closed.
+Print Assumptions deadlock_history_now_closes.
+Print Assumptions orderly_shutdown.
+Print Assumptions panic_history_now_orderly.
+Print Assumptions model_passes_clause_checker.
